@@ -33,8 +33,6 @@ spec.symbolic_mode(True)
 
 # ------------------------------------------------------------------ obligations
 class Obligation:
-    __slots__ = ("name", "kind", "hyps", "goal", "func", "path_id", "lineno",
-                 "expect_sat", "note")
 
     def __init__(self, name, kind, hyps, goal, func, path_id, lineno=None,
                  expect_sat=False, note=""):
@@ -194,8 +192,9 @@ class Path:
         if goal is False:
             goal = z3.BoolVal(False)
         name = f"{self.func_label}#{kind}" + (f":{detail}" if detail else "")
-        self.obls.append(Obligation(name, kind, self.facts, goal, self.func_label,
-                                    self.path_id(), lineno, note=note))
+        o = Obligation(name, kind, self.facts, goal, self.func_label, self.path_id(), lineno, note=note)
+        o.args = getattr(self, "args", None)
+        self.obls.append(o)
 
     def cover(self, detail, cond=True):
         name = f"{self.func_label}#cover:{detail}"
@@ -447,6 +446,13 @@ class Engine:
                 all_obls.extend(path.obls)
                 self.assumptions |= path.assumptions_used
             stats["paths"] += npaths
+        # lemmas over the contract alone (no code): hypotheses are the contract's clauses
+        lem = getattr(c, "lemmas", None)
+        if lem is not None:
+            path = Path(self, [], label_base)
+            lem(path, Vocab(path))
+            all_obls.extend(path.obls)
+            self.assumptions |= path.assumptions_used
         return all_obls, stats
 
     def _configs(self, c):
@@ -463,7 +469,9 @@ class Engine:
         if ghost:
             path.ghost.update(ghost)
         call_args = dict(args)
+        path.args = dict(call_args)
         args = _cargs(args)
+        c._v = v
         req = c.requires(**args)
         for nm, cond in _named(req):
             path.assume(cond)
@@ -486,6 +494,10 @@ class Engine:
             for exc_name, condfn in c.raises.items():
                 cond = condfn(**args)
                 path.oblige("raises", f"{exc_name}-missed", spec.Not(cond))
+        gf = getattr(c, "ghost_final", None)
+        if gf is not None and interp.top_env is not None:
+            for gn, gv in gf(interp, State(interp.top_env, {}), result).items():
+                interp.top_env.set("__g_" + gn, gv)
         ens = _call_ensures(c, result, args, interp.top_env)
         for nm, cond in _named(ens):
             path.oblige("post", nm, cond)
@@ -1581,9 +1593,9 @@ class Interp:
             t = self.truthy(val)
             d = self.path.branch(t)
             if is_and and not d:
-                return val if not is_z3(val) else False
+                return val
             if (not is_and) and d:
-                return val if not is_z3(val) else True
+                return val
         return val
 
     def ex_UnaryOp(self, e, env):
@@ -1717,8 +1729,14 @@ class Interp:
                 if g.ifs:
                     raise Unsupported("filtered comprehension over symbolic iterable")
                 cnt, item_at = self.sym_iter(it)
+                # comprehensions are eager in Python: snapshot the free variables now
+                snap = {}
+                for nnode in ast.walk(e.elt):
+                    if isinstance(nnode, ast.Name) and isinstance(nnode.ctx, ast.Load) and env.has(nnode.id):
+                        snap[nnode.id] = env.lookup(nnode.id)
+                senv = Env(env, snap)
 
-                def at(k, g=g, e=e, env=env, item_at=item_at):
+                def at(k, g=g, e=e, env=senv, item_at=item_at):
                     ce = Env(env)
                     self.assign(g.target, item_at(k), ce)
                     return self.eval(e.elt, ce)
